@@ -6,10 +6,11 @@ PROP = {'engine': 'c17',
  'technique': 'runtime monitoring with a lock-step map model and metamorphic oracles (fresh tries built from the model in several '
               'orders; an independently written statement of the Merkle pairing rule)',
  'rule': 'TRIE (seeded random, not exhaustive): a case is one fully materialised history of 100..200 operations (quick 300 histories, '
-         'thorough 6000, plus 3 fixed hand-written histories) on 1 or 2 tries living on the TrieDatabase of a real BeansDB-backed '
+         'thorough 6000, plus 4 fixed hand-written histories) on 1 or 2 tries living on the TrieDatabase of a real BeansDB-backed '
          'store.ChainDatabase created for that history; half plain Trie, half SecureTrie; cache limit 0/1/2 generations (and 120 as '
          'chain/account uses); key universe of 4..40 keys in four styles (short keys over five byte values incl. the empty key and keys '
-         'that are prefixes of others; 32-byte keys differing only in the last nibbles; hash-like keys; address-like mixture); values '
+         'that are prefixes of others; 32-byte keys differing only in the last nibbles; hash-like keys; address-like mixture; one history in '
+         '15 has 110..150 keys with mostly 1 KiB values so that a single TrieDatabase.Commit exceeds IdealBatchSize); values '
          'empty (=delete), 1..8, 9..31, 32..100 bytes and 1 KiB, 40% drawn from a pool of six so that states recur. Operations: TryUpdate, '
          'TryDelete, TryGet, read-all, Hash, Trie.Commit only, Trie.Commit+TrieDatabase.Commit(root,false) (the account.Manager.Save '
          'pattern), reopen any committed root through the same TrieDatabase (optionally continuing from it), reopen a flushed root through '
